@@ -21,13 +21,13 @@ import (
 
 // Harness describes one symbolic harness.
 type Harness struct {
-	Name     string          // e.g. c06.RunArith
-	Pkg      *ssa.Package    // harness package
-	Run      *ssa.Function   // func()
-	Setup    *ssa.Function   // func(), may be nil
+	Name     string                   // e.g. c06.RunArith
+	Pkg      *ssa.Package             // harness package
+	Run      *ssa.Function            // func()
+	Setup    *ssa.Function            // func(), may be nil
 	Models   map[string]*ssa.Function // full function name -> replacement
-	InitOK   []string        // package path prefixes whose init functions run
-	CountPfx []string        // package path prefixes counted in functions_encoded
+	InitOK   []string                 // package path prefixes whose init functions run
+	CountPfx []string                 // package path prefixes counted in functions_encoded
 }
 
 type Result struct {
@@ -136,6 +136,7 @@ func newInterpreter(prog *ssa.Program, h *Harness, opts *Options, q *workQueue, 
 	if err != nil {
 		return nil, err
 	}
+	i.solver.cvc5Path = opts.CVC5Path
 	// concrete set-up phase
 	i.inSetup = true
 	var setupErr error
